@@ -401,4 +401,41 @@ example : NoWrap k6Mint true k6Active ∧
     (3 : UInt64).toNat + (feesToReceive k6Mint.activePpk 3 true).toNat + feeN k6Mint k6Active ≤ amountN k6Active :=
   ⟨⟨by decide, fun _ => by decide⟩, by decide⟩
 
+/-! ## splitWalletTarget and the swap request -/
+
+/-- `splitWalletTarget_sum`: for every wallet content and every amount, the returned amounts are powers of
+    two, sorted, and sum to `amountToSplit` (in ℕ; `walletAmounts.length < 2^63` holds of every Go slice and
+    is what keeps `uint64(target)-uint64(count)` from wrapping twice). -/
+theorem splitWalletTarget_sum (walletAmounts : List UInt64) (amountToSplit : UInt64)
+    (hw : walletAmounts.length < 2 ^ 63) :
+    natSum (splitWalletTarget walletAmounts amountToSplit) = amountToSplit.toNat ∧
+    (∀ x ∈ splitWalletTarget walletAmounts amountToSplit, ∃ e, e < 64 ∧ x.toNat = 2 ^ e) ∧
+    (splitWalletTarget walletAmounts amountToSplit).Pairwise (· ≤ ·) :=
+  splitWalletTarget_spec walletAmounts amountToSplit hw
+
+/-- wallet `[1,1,1,1,2]`, 13 to split: wanted below 13 are `2,2,4,4` (three 1s are there), rest 1. -/
+example : splitWalletTarget [1, 1, 1, 1, 2] 13 = [1, 2, 2, 4, 4] := by decide
+/-- the largest amount: 3·(2^0+…+2^58) + 2·2^59 taken from the targets, the remainder split by bits. -/
+example : natSum (splitWalletTarget [] (UInt64.ofNat (2 ^ 64 - 1))) = 2 ^ 64 - 1 := by decide
+
+/-- `swap_balanced`: the swap request built by `swapToSend` is exactly balanced in ℕ — inputs = send outputs
+    + change outputs + fee of the inputs — so the unchecked `proofsAmount - amount - uint64(fees)` does not
+    wrap, the mint's `proofsAmount - fees ≥ Σ outputs` test passes, and nothing is left at the mint; the send
+    outputs are worth `amount + feesToReceive`. -/
+theorem swap_balanced {srt : Sorter} (hs : srt.OK) {m : Mint} {inactive active : List P} {amount : UInt64}
+    {inc : Bool} {plan : SwapPlan} (h : getProofsForAmount srt m inactive active amount inc = .swap plan)
+    (hn : NoWrap m true (inactive ++ active))
+    (hA : amount.toNat + (feesToReceive m.activePpk amount inc).toNat + feeOptN m true inactive
+            + feeOptN m true active < 2 ^ 64)
+    (hw : (inactive ++ active).length < 2 ^ 63) :
+    (∃ rest, (plan.inputs ++ rest).Perm (inactive ++ active)) ∧
+    natSum plan.send = amount.toNat + (feesToReceive m.activePpk amount inc).toNat ∧
+    natSum plan.send + natSum plan.change + feeN m plan.inputs = amountN plan.inputs :=
+  swapToSend_balanced hs (getProofsForAmount_swap h) hn hA hw
+
+/-- `k6_witness` meets the hypotheses: inputs `[4,2,1,8]` = 15 = send 6 + change 5 + fee 4. -/
+example : NoWrap k6Mint true ([] ++ k6Active) ∧
+    (3 : UInt64).toNat + (feesToReceive k6Mint.activePpk 3 true).toNat + feeOptN k6Mint true []
+      + feeOptN k6Mint true k6Active < 2 ^ 64 := ⟨⟨by decide, fun _ => by decide⟩, by decide⟩
+
 end Gonuts.Props.C18
